@@ -29,6 +29,7 @@ LEVEL = "exploration"
 ENGINE = "ctxsim"
 MIN_THREADS = 1
 CHUNK = 6
+REACH = ['toggle:accepted', 'toggle:rejected', 'call:disabled', 'call:enabled', 'hookcall:disabled', 'hookcall:enabled', 'mode:concurrent', 'calls_overlapping_a_toggle', 'env_spellings']  # counters (prefixes) that a healthy batch makes non-zero; gaps are reported in the evidence
 BUDGET = {"quick": 40, "thorough": 600}
 RULE = (
     "Seeded histories of toggles (22 spellings, valid and invalid, both switches), lazy decorations, no_type_check "
